@@ -336,6 +336,7 @@ type Syncer struct {
 	peerRemoved sync.Cond // broadcasts when peer is removed from 'peers'
 	peers       map[string]*Peer
 	strikes     map[string]int
+	closing     bool // set by Run before it disconnects all peers
 
 	inflightMu     sync.Mutex
 	inflightSubnet map[string]int // subnet key -> live inbound handler count
@@ -396,6 +397,11 @@ func (s *Syncer) addPeer(p *Peer) error {
 
 	s.mu.Lock()
 	defer s.mu.Unlock()
+	if s.closing {
+		// Run has already disconnected all peers and is waiting for them to
+		// go away; a peer registered now would never be disconnected
+		return threadgroup.ErrClosed
+	}
 	if p.Inbound {
 		// allowConnect ran before the handshake; connections that were
 		// handshaking at the same time have all passed it, so the cap is
@@ -916,6 +922,7 @@ func (s *Syncer) Run() error {
 	// when one goroutine exits, shutdown and wait for the others
 	s.l.Close()
 	s.mu.Lock()
+	s.closing = true
 	for _, p := range s.peers {
 		p.Close()
 	}
@@ -971,6 +978,7 @@ func (s *Syncer) Connect(ctx context.Context, addr string) (*Peer, error) {
 		Inbound:  false,
 	}
 	if err := s.addPeer(p); err != nil {
+		conn.Close()
 		return nil, fmt.Errorf("failed to add peer: %w", err)
 	}
 
